@@ -238,6 +238,9 @@ def dry_runs():
     yield 'L1_transcript', dict(tr=0, uni=True, lf=True, lr=False, ls=True, o0=3, o1=0, o2=3, a='ab', b='c')
 
 
+PROBES = ['transports']      # representation probes (harness/probes.py) this harness depends on
+
+
 MANIFEST_ENTRY = {
     'level_text': 'Bounded symbolic verification of the real _log and of every transport\'s read and send paths: '
                   'histories of three operations (read, send, sendline, control character) x symbolic log configuration '
